@@ -133,4 +133,26 @@ def RuleSpec.inDomain (cfg : MapCfg) (s : RuleSpec) : Bool :=
 
 def InDomain (cfg : MapCfg) (specs : List RuleSpec) : Bool := specs.all (·.inDomain cfg)
 
+
+/-! ### outcome tests (for decidable example statements) -/
+
+def Outcome.isMatched : Outcome → Bool
+  | .matched .. => true
+  | _ => false
+
+def Outcome.isNotFound : Outcome → Bool
+  | .notFound => true
+  | _ => false
+
+def Outcome.is405 : Outcome → Bool
+  | .methodNotAllowed _ => true
+  | _ => false
+
+def Outcome.isRedirect : Outcome → Bool
+  | .redirect _ => true
+  | _ => false
+
+theorem Outcome.eq_notFound {o : Outcome} (h : o.isNotFound = true) : o = .notFound := by
+  cases o <;> simp_all [Outcome.isNotFound]
+
 end Wz.Routing
